@@ -8,6 +8,7 @@ parameter slice `bidx b` and the data slice `bidx b` — nothing else enters.
 Shapes are innermost-first: torch's `(*batch, n, d)` is `d :: n :: batch`.
 -/
 import GPVerif.Model.BatchOps
+import GPVerif.Gen.BatchChoreo
 import GPVerif.Bridge.BcastLemmas
 
 namespace C08
@@ -200,6 +201,136 @@ theorem sum_mll_mean_two {O Y : Type} (m1 m2 : O → Y → Rat) (o1 o2 : O) (y1 
   simp only [sumMll, pySum, List.zip_cons_cons, List.zip_nil_right, List.zipWith_cons_cons, List.zipWith_nil_right,
     List.foldl_cons, List.foldl_nil, List.length_cons, List.length_nil, Rat.zero_add]
   rfl
+
+/-! ### the GENERATED choreographies (`Gen/BatchChoreo.lean`, regenerated from the Python AST on every run)
+
+Each theorem is about the op list the translator read off the source, interpreted by `Choreo` — the hand-written
+`BatchOps` functions above only serve as lemmas.  A source change that alters a shape operation changes the
+generated list and these proofs stop going through. -/
+
+section Generated
+open Choreo Gen.BatchChoreo
+
+/-- `x.div(self.lengthscale)` as generated -/
+theorem gen_lengthscale_div_elementwise [Add β] [OfNat β 0] (f : α → β → γ) (x : T α) (ℓ : T β)
+    {xb kb bs : RShape} {n d : Nat}
+    (hx : x.shape = d :: n :: xb) (hl : ℓ.shape = d :: 1 :: kb) (hb : bcastR xb kb = some bs) :
+    ∃ t, runBinary lengthscaleDivOps f x ℓ [] [] = some t ∧ t.shape = d :: n :: bs ∧
+      ∀ c i b, c < d → i < n → InRange b bs →
+        t.get (c :: i :: b) = f (x.get (c :: i :: bidxR xb b)) (ℓ.get (c :: 0 :: bidxR kb b)) := by
+  have e : runBinary lengthscaleDivOps f x ℓ [] [] = lengthscaleDiv f x ℓ := by
+    simp [runBinary, lengthscaleDivOps, runOps, lengthscaleDiv]
+  rw [e]; exact lengthscaleDiv_elementwise f x ℓ hx hl hb
+
+/-- `ScaleKernel.forward` (full matrix) as generated: the `view` keeps every batch dimension in place -/
+theorem gen_scale_kernel_elementwise [Add β] [OfNat β 0] (f : α → β → γ) (K : T α) (os : T β)
+    {kb ob bs : RShape} {n m : Nat}
+    (hK : K.shape = m :: n :: kb) (ho : os.shape = ob) (hb : bcastR kb ob = some bs) :
+    ∃ t, runBinary scaleFullOps f K os [] [] = some t ∧ t.shape = m :: n :: bs ∧
+      ∀ j i b, j < m → i < n → InRange b bs →
+        t.get (j :: i :: b) = f (K.get (j :: i :: bidxR kb b)) (os.get (bidxR ob b)) := by
+  have e : runBinary scaleFullOps f K os [] [] = scaleMul f K os := by
+    simp [runBinary, scaleFullOps, runOps, UOp.run, SE.eval, scaleMul]
+  rw [e]; exact scaleMul_elementwise f K os hK ho hb
+
+/-- `ScaleKernel.forward(diag=True)` as generated -/
+theorem gen_scale_kernel_diag_elementwise [Add β] [OfNat β 0] (f : α → β → γ) (Kd : T α) (os : T β)
+    {kb ob bs : RShape} {n : Nat}
+    (hK : Kd.shape = n :: kb) (ho : os.shape = ob) (hb : bcastR kb ob = some bs) :
+    ∃ t, runBinary scaleDiagOps f Kd os [] [] = some t ∧ t.shape = n :: bs ∧
+      ∀ i b, i < n → InRange b bs → t.get (i :: b) = f (Kd.get (i :: bidxR kb b)) (os.get (bidxR ob b)) := by
+  have e : runBinary scaleDiagOps f Kd os [] [] = scaleMulDiag f Kd os := by
+    simp [runBinary, scaleDiagOps, runOps, UOp.run, scaleMulDiag]
+  rw [e]; exact scaleMulDiag_elementwise f Kd os hK ho hb
+
+/-- `RQKernel.forward`, full matrix: `alpha : (*kb, 1)` is given one trailing dimension per non-batch dimension of
+`dist_mat : (*db, n, m)`, so entry `(b, i, j)` reads `alpha[bidx b]` — for every data batch rank (the generated
+count does not depend on the ranks of `dist_mat` / the kernel batch) -/
+theorem gen_rq_alpha_elementwise [Add β] [OfNat β 0] (f : α → β → γ) (dist : T α) (alpha : T β)
+    (distRank kbRank : Nat) {db kb bs : RShape} {n m : Nat}
+    (hd : dist.shape = m :: n :: db) (ha : alpha.shape = 1 :: kb) (hb : bcastR db kb = some bs) :
+    ∃ t, runBinary (rqAlphaOps false false distRank kbRank) f dist alpha [] [] = some t ∧ t.shape = m :: n :: bs ∧
+      ∀ j i b, j < m → i < n → InRange b bs →
+        t.get (j :: i :: b) = f (dist.get (j :: i :: bidxR db b)) (alpha.get (0 :: bidxR kb b)) := by
+  have e : runBinary (rqAlphaOps false false distRank kbRank) f dist alpha [] [] = T.map2 f dist (alpha.unsqueeze 0) := by
+    simp [runBinary, rqAlphaOps, rqUnsqueezeCount, runOps, UOp.run, List.replicate]
+  have hs : bcastR dist.shape (alpha.unsqueeze 0).shape = some (m :: n :: bs) := by
+    simp only [T.unsqueeze, hd, ha, insertAt_zero]; exact bcastR_cons_one_right m (bcastR_cons_one_right n hb)
+  obtain ⟨t, ht, hts, hget⟩ := map2_elementwise f dist (alpha.unsqueeze 0) hs
+  refine ⟨t, by rw [e]; exact ht, hts, fun j i b hj hi _ => ?_⟩
+  rw [hget, hd]
+  simp only [T.unsqueeze, ha, insertAt_zero]
+  rw [bidxR_cons_lt _ _ hj, bidxR_cons_lt _ _ hi, bidxR_cons_one, bidxR_cons_one]
+  simp
+
+/-- `RQKernel.forward(diag=True)`: no trailing dimension is added -/
+theorem gen_rq_alpha_diag_elementwise [Add β] [OfNat β 0] (f : α → β → γ) (dist : T α) (alpha : T β)
+    (distRank kbRank : Nat) {db kb bs : RShape} {n : Nat}
+    (hd : dist.shape = n :: db) (ha : alpha.shape = 1 :: kb) (hb : bcastR db kb = some bs) :
+    ∃ t, runBinary (rqAlphaOps true false distRank kbRank) f dist alpha [] [] = some t ∧ t.shape = n :: bs ∧
+      ∀ i b, i < n → InRange b bs → t.get (i :: b) = f (dist.get (i :: bidxR db b)) (alpha.get (0 :: bidxR kb b)) := by
+  have e : runBinary (rqAlphaOps true false distRank kbRank) f dist alpha [] [] = T.map2 f dist alpha := by
+    simp [runBinary, rqAlphaOps, rqUnsqueezeCount, runOps]
+  have hs : bcastR dist.shape alpha.shape = some (n :: bs) := by
+    rw [hd, ha]; exact bcastR_cons_one_right n hb
+  obtain ⟨t, ht, hts, hget⟩ := map2_elementwise f dist alpha hs
+  refine ⟨t, by rw [e]; exact ht, hts, fun i b hi _ => ?_⟩
+  rw [hget, hd, ha, bidxR_cons_lt _ _ hi, bidxR_cons_one]
+
+/-- `_HomoskedasticNoiseBase.forward` (`num_tasks = 1`) as generated -/
+theorem gen_noise_elementwise [Add α] [OfNat α 0] (zero : α) (noise : T α) {nb xb bs : RShape} (n : Nat)
+    (hn : noise.shape = 1 :: nb) (hb : bcastR nb xb = some bs) :
+    ∃ t, runConstDiag homoNoiseOps zero noise [xb] n = some t ∧ t.shape = n :: n :: bs ∧
+      ∀ j i b, InRange b bs →
+        t.get (j :: i :: b) = if j = i then noise.get (0 :: bidxR nb b) else zero := by
+  have e : runConstDiag homoNoiseOps zero noise [xb] n = homoNoise zero noise xb n := by
+    simp [runConstDiag, homoNoiseOps, runOps, UOp.run, SE.eval, homoNoise, hn, hb, T.unsqueeze, T.expand, T.view]
+  rw [e]; exact homoNoise_elementwise zero noise n hn hb
+
+/-- `ConstantMean.forward` as generated -/
+theorem gen_constant_mean_elementwise [Add α] [OfNat α 0] (c : T α) {mb xb bs : RShape} {n : Nat}
+    (hc : c.shape = mb) (hb : bcastR mb xb = some bs) :
+    ∃ t, runParam constantMeanOps c [n :: xb] [] = some t ∧ t.shape = n :: bs ∧
+      ∀ i b, i < n → InRange b bs → t.get (i :: b) = c.get (bidxR mb b) := by
+  have e : runParam constantMeanOps c [n :: xb] [] = constantMean c (n :: xb) := by
+    simp only [runParam, constantMeanOps, runOps, UOp.run, SE.eval, Option.bind_some, List.getElem?_cons_zero, constantMean]
+    cases bcastR (c.unsqueeze 0).shape (n :: xb) <;> simp
+  rw [e]; exact constantMean_elementwise c hc hb
+
+/-- the per-batch prior reduction of `ExactMarginalLogLikelihood._add_other_terms` as generated
+(`view(*shape[:n], -1).sum(-1)` with `n = res_ndim` leading batch dimensions kept) -/
+theorem gen_prior_reduce_per_batch [Add α] [OfNat α 0] (t : T α) (n : Nat) (b : RIdx)
+    (hb : InRange b (t.shape.drop (t.shape.length - n))) :
+    ∃ r, runParam exactPriorOps t [] [n] = some r ∧ r.get b = (t.sumInner (t.shape.length - n)).get b := by
+  have e : runParam exactPriorOps t [] [n] = some (priorReduce t (t.shape.length - n)) := by
+    simp [runParam, exactPriorOps, runOps, UOp.run, priorReduce, T.viewSumLast, sumLastT, T.view]
+  exact ⟨_, e, priorReduce_per_batch t _ b hb⟩
+
+/-- … and of `_ApproximateMarginalLogLikelihood.forward` (ELBO / predictive log likelihood) -/
+theorem gen_approx_prior_reduce_per_batch [Add α] [OfNat α 0] (t : T α) (n : Nat) (b : RIdx)
+    (hb : InRange b (t.shape.drop (t.shape.length - n))) :
+    ∃ r, runParam approxPriorOps t [] [n] = some r ∧ r.get b = (t.sumInner (t.shape.length - n)).get b := by
+  have e : runParam approxPriorOps t [] [n] = some (priorReduce t (t.shape.length - n)) := by
+    simp [runParam, approxPriorOps, runOps, UOp.run, priorReduce, T.viewSumLast, sumLastT, T.view]
+  exact ⟨_, e, priorReduce_per_batch t _ b hb⟩
+
+/-- `SumMarginalLogLikelihood.forward` as generated, for members whose MLLs are tensors of a common batch shape:
+the result keeps that shape and its element `b` is the mean over the members of *their* element `b` -/
+theorem gen_sum_mll_mean (members : List (T Rat)) :
+    ∃ t, runSumMll sumMllOps members = some t ∧ t.shape = (members.head?.map (·.shape)).getD [] ∧
+      ∀ b, t.get b = (members.map (·.get b)).sum / (members.length : Rat) := by
+  refine ⟨_, by simp [runSumMll, sumMllOps, runR, ROp.run]; rfl, rfl, fun b => ?_⟩
+  simp only [pySum, foldl_add_eq_sum, Rat.zero_add]
+
+/-- `IndependentModelList.forward` / `__call__` as generated -/
+theorem gen_model_list_outputs {A B : Type} (models : List (A → B)) (args : List A) (h : models.length = args.length) :
+    (modelListForwardForm.run models args).length = models.length ∧ modelListCallForm.run models args = modelListForwardForm.run models args ∧
+    ∀ i (hi : i < models.length), (modelListForwardForm.run models args)[i]? = some (models[i] (args[i]'(h ▸ hi))) := by
+  have e : modelListForwardForm.run models args = BatchOps.modelListCall models args := rfl
+  rw [e]
+  exact ⟨(model_list_outputs models args h).1, rfl, (model_list_outputs models args h).2⟩
+
+end Generated
 
 /-! ### non-vacuity -/
 
